@@ -14,3 +14,4 @@ for P in "$@"; do
   echo "== $P ($TIER) exit=$rc"; grep -v Warning /tmp/seed_$P.log | grep "VIOLATION\|INCONCLUSIVE\|KNOWN-FINDING\|^\[C" | cut -c1-260 | head -6
 done
 cd "$R" && git checkout -- OpenPinch && git status --porcelain -- OpenPinch | head -2
+git -C /verif checkout -- evidence 2>/dev/null; git -C /verif clean -fdq evidence/replays 2>/dev/null   # seeded runs rewrite evidence: restore the committed files
